@@ -1141,7 +1141,8 @@ class AstEval:
             # leave the class scope even if the class body raises
             self.sym_table = self.sym_table_stack.pop()
 
-        sym_table["__init__evalfunc_wrap__"] = None
+        # only a class that defines __init__ gets the wrapper attribute: a subclass without its own
+        # __init__ must find the one it inherits
         if "__init__" in sym_table:
             sym_table["__init__evalfunc_wrap__"] = sym_table["__init__"]
             del sym_table["__init__"]
